@@ -246,7 +246,10 @@ func deepCopy(v reflect.Value) reflect.Value {
 		}
 		return n
 	}
-	return v
+	// scalars: a fresh, independent value (v may be addressable and shared)
+	n := reflect.New(v.Type()).Elem()
+	n.Set(v)
+	return n
 }
 
 // fillDefaults applies "decoding always fills the schema default into a defaulted
